@@ -6,8 +6,8 @@ package main
 //   pkg/storage/storage.go       FromConfig (looks the constructor up by Type, hands config and host on untouched)
 //   pkg/storage/{mem,file}       which configuration items the constructors read
 //   pkg/storage/retention.go     which configuration items end up as the scanner's period / sleep / store
-//   pkg/server/lifecycle.go      FullAssembly: which constructor receives which configuration field and which shared object;
-//                                Start / setupNotify: which services are started and watched
+//   pkg/server (lifecycle.go)    FullAssembly: which constructor receives which configuration field and which shared object;
+//                                Start / the notify-merging helper FullAssembly calls: which services are started and watched
 //   pkg/server/web/server.go     NewServer: base path source, the package variables it sets
 //   pkg/server/{smtp,pop3}       NewServer keeps every parameter
 //
@@ -19,6 +19,12 @@ package main
 //   &T{F:…,…}#k        the k-th composite literal of that description bound to a local variable
 // so renaming locals / parameters, reordering independent statements or extracting the error handling does not change them,
 // while handing a component another object, another configuration field or a copy does.
+//
+// Unexported things never reach a fact by their spelling (kit_t1b.go): an unexported struct field is named by its declared
+// type (`~*sync.WaitGroup`), an unexported helper by its role (`~readyFunc`) or by being called from the exported function
+// under study, with its body read as if it stood at the call site (config.Process -> its lower-casing helper, DoScan -> its
+// visitor callback and per-mailbox helpers).  main()'s signal loop is summarised from path conditions as the list of ways
+// out of it and whether the services' context is cancelled on each (mainLoopWays), not as a count of break statements.
 
 import (
 	"fmt"
@@ -366,6 +372,404 @@ func asmRecvFields(e ast.Node, recv string) []string {
 	return res
 }
 
+// asmStructFieldTypes: field name -> printed declared type of the struct type `name` of the package.
+func asmStructFieldTypes(p *rtPkg, name string) map[string]string {
+	res := map[string]string{}
+	for _, f := range p.files {
+		if st := axStruct(f, name); st != nil && st.Fields != nil {
+			for _, fl := range st.Fields.List {
+				for _, n := range fl.Names {
+					res[n.Name] = oneLine(src(fl.Type))
+				}
+			}
+		}
+	}
+	return res
+}
+
+// asmHelperRole names what an unexported helper of the package does, by shape (never by its name):
+//
+//	readyFunc   a method that, as one of its top-level statements, calls <recv>.<F>.Add(1) on a field F of type
+//	            (*)sync.WaitGroup, returns a function literal that refers to <recv>.<F>.Done, has no other
+//	            WaitGroup call — and `user` (Services.Start) calls <its recv>.<F>.Wait() on that same field
+//	unknown     anything else
+func asmHelperRole(p *rtPkg, fd *ast.FuncDecl, user *ast.FuncDecl) string {
+	recv := axRecvObj(fd)
+	if recv == nil || fd.Body == nil {
+		return "unknown"
+	}
+	wg := sdFieldsOfType(p, "sync", "WaitGroup")
+	// <o>.<F>.<method> with F a WaitGroup field: returns F
+	wgSel := func(e ast.Expr, o *ast.Object, method string) string {
+		se, ok := rtUnparen(e).(*ast.SelectorExpr)
+		if !ok || se.Sel.Name != method {
+			return ""
+		}
+		in, ok := rtUnparen(se.X).(*ast.SelectorExpr)
+		if !ok || !wg[in.Sel.Name] || rtIdentObj(in.X) != o || o == nil {
+			return ""
+		}
+		return in.Sel.Name
+	}
+	field, adds := "", 0
+	for _, s := range fd.Body.List {
+		if es, ok := s.(*ast.ExprStmt); ok {
+			if ce, ok := es.X.(*ast.CallExpr); ok && len(ce.Args) == 1 && rtLit(ce.Args[0], "1") {
+				if f := wgSel(ce.Fun, recv, "Add"); f != "" {
+					field = f
+					adds++
+				}
+			}
+		}
+	}
+	if adds != 1 || sdCountFieldCalls(fd.Body, wg, "Add", "Wait") != 1 {
+		return "unknown"
+	}
+	// every return hands back a function literal that refers to <recv>.<field>.Done
+	returns, good := 0, 0
+	for _, s := range fd.Body.List {
+		rs, ok := s.(*ast.ReturnStmt)
+		if !ok {
+			continue
+		}
+		returns++
+		if len(rs.Results) != 1 {
+			continue
+		}
+		fl, ok := rtUnparen(rs.Results[0]).(*ast.FuncLit)
+		if !ok {
+			continue
+		}
+		dones := 0
+		ast.Inspect(fl.Body, func(x ast.Node) bool {
+			if e, ok := x.(ast.Expr); ok && wgSel(e, recv, "Done") == field {
+				dones++
+			}
+			return true
+		})
+		if dones == 1 {
+			good++
+		}
+	}
+	nRet := 0
+	ast.Inspect(fd.Body, func(x ast.Node) bool {
+		switch x.(type) {
+		case *ast.FuncLit:
+			return false
+		case *ast.ReturnStmt:
+			nRet++
+		}
+		return true
+	})
+	if returns != 1 || good != 1 || nRet != 1 {
+		return "unknown"
+	}
+	// the user waits on that very field
+	waits := 0
+	if user != nil && user.Body != nil {
+		uo := axRecvObj(user)
+		ast.Inspect(user.Body, func(x ast.Node) bool {
+			if ce, ok := x.(*ast.CallExpr); ok && len(ce.Args) == 0 && wgSel(ce.Fun, uo, "Wait") == field {
+				waits++
+			}
+			return true
+		})
+	}
+	if waits != 1 {
+		return "unknown"
+	}
+	return "readyFunc"
+}
+
+// asmWay: one way out of main's signal loop.
+type asmWay struct {
+	name      string
+	cancelled bool
+}
+
+// asmMainLoopWays analyses cmd/inbucket main(): see the comment of Gen.Assembly.mainLoopWays.  Path conditions come from
+// the rt walker (unexported helpers of package main inlined), so the result does not depend on how the branches are
+// spelled or grouped, nor on whether the cancel call is repeated in every branch or written once after the loop.
+func asmMainLoopWays() []asmWay {
+	fail := func(why string) []asmWay { return []asmWay{{"unknown:" + why, false}} }
+	p := rtLoadPkg("cmd/inbucket")
+	mn := t1bFunc(p, "main")
+	if mn == nil {
+		return fail("no-main")
+	}
+	w := rtWalkBody(p, mn.Body, nil)
+	if w.unknown {
+		return fail("control-flow")
+	}
+	// the objects: cancel function, signal channel + registered signals, the assembled services
+	var cancelObj, servicesObj, sigChanObj *ast.Object
+	nCancel, nSvc, nSig := 0, 0, 0
+	var registered []string
+	for _, l := range w.leaves {
+		if l.owner != 0 {
+			continue
+		}
+		if as, ok := l.st.(*ast.AssignStmt); ok && len(as.Rhs) == 1 {
+			if ce, ok := rtUnparen(as.Rhs[0]).(*ast.CallExpr); ok {
+				switch {
+				case rtIsPkgSel(ce.Fun, "context", "WithCancel") && len(as.Lhs) == 2:
+					cancelObj = rtIdentObj(as.Lhs[1])
+					nCancel++
+				case rtIsPkgSel(ce.Fun, "server", "FullAssembly") && len(as.Lhs) >= 1:
+					servicesObj = rtIdentObj(as.Lhs[0])
+					nSvc++
+				}
+			}
+		}
+		for _, ce := range rtCalls(l.scope()) {
+			if rtIsPkgSel(ce.Fun, "signal", "Notify") && len(ce.Args) >= 1 {
+				sigChanObj = rtIdentObj(ce.Args[0]) // identity of the variable, not its definition
+				nSig++
+				for _, a := range ce.Args[1:] {
+					registered = append(registered, oneLine(src(a)))
+				}
+			}
+		}
+	}
+	if cancelObj == nil || servicesObj == nil || sigChanObj == nil || nCancel != 1 || nSvc != 1 || nSig != 1 {
+		return fail("objects")
+	}
+	sort.Strings(registered)
+	commKind := func(cc *ast.CommClause, env *rtEnv) string {
+		if cc.Comm == nil {
+			return "default"
+		}
+		ch := rtRecvChan(cc.Comm)
+		if ch == nil {
+			return "other"
+		}
+		if o := rtIdentObj(ch); o != nil && o == sigChanObj {
+			return "signal"
+		}
+		if x, args, _, ok := p.methodCall(ch, env, "Notify"); ok && len(args) == 0 && rtIdentObj(x) == servicesObj {
+			return "notify"
+		}
+		return "other"
+	}
+	// the loop: the innermost loop around the unique select of main that has a signal or a notify case
+	selIdx := -1
+	for i, l := range w.leaves {
+		sel, ok := l.st.(*ast.SelectStmt)
+		if !ok || l.owner != 0 {
+			continue
+		}
+		for _, c := range sel.Body.List {
+			if k := commKind(c.(*ast.CommClause), l.env); k == "signal" || k == "notify" {
+				if selIdx >= 0 && selIdx != i {
+					return fail("two-selects")
+				}
+				selIdx = i
+			}
+		}
+	}
+	if selIdx < 0 || len(w.leaves[selIdx].loops) == 0 {
+		return fail("no-loop")
+	}
+	selLeaf := w.leaves[selIdx]
+	sel := selLeaf.st.(*ast.SelectStmt)
+	loop, ok := selLeaf.loops[len(selLeaf.loops)-1].(*ast.ForStmt)
+	if !ok || loop.Cond != nil || loop.Init != nil || loop.Post != nil {
+		return fail("loop-shape")
+	}
+	loopIdx := -1
+	for i, l := range w.leaves {
+		if l.st == ast.Stmt(loop) {
+			loopIdx = i
+		}
+	}
+	if loopIdx < 0 {
+		return fail("no-loop")
+	}
+	loopLeaf := w.leaves[loopIdx]
+	inLoop := func(l rtLeaf) bool {
+		for _, x := range l.loops {
+			if x == ast.Stmt(loop) {
+				return true
+			}
+		}
+		return false
+	}
+	isCancel := func(l rtLeaf) bool {
+		es, ok := l.st.(*ast.ExprStmt)
+		if !ok || l.owner != 0 {
+			return false
+		}
+		ce, ok := es.X.(*ast.CallExpr)
+		return ok && len(ce.Args) == 0 && rtIdentObj(ce.Fun) == cancelObj
+	}
+	sameLoops := func(a, b []ast.Stmt) bool {
+		if len(a) != len(b) {
+			return false
+		}
+		for i := range a {
+			if a[i] != b[i] {
+				return false
+			}
+		}
+		return true
+	}
+	// the cancel call written once after the loop: unconditional, before the first Drain / Join
+	afterCancel := false
+	for i := loopIdx + 1; i < len(w.leaves); i++ {
+		l := w.leaves[i]
+		if inLoop(l) || l.node() == nil || l.node().Pos() < loop.End() {
+			continue
+		}
+		if isCancel(l) && sdSamePc(l.pc, loopLeaf.pc) && sameLoops(l.loops, loopLeaf.loops) {
+			afterCancel = true
+			break
+		}
+		stop := false
+		for _, ce := range rtCalls(l.scope()) {
+			if n := rtCallName(ce); n == "Drain" || n == "Join" {
+				stop = true
+			}
+		}
+		if stop {
+			break
+		}
+	}
+	type exit struct {
+		kind      string
+		rel       []rtAtom
+		sigVar    *ast.Object
+		cancelled bool
+	}
+	var exits []exit
+	for i := loopIdx + 1; i < len(w.leaves); i++ {
+		l := w.leaves[i]
+		if !inLoop(l) || l.st == nil {
+			continue
+		}
+		isBreak := false
+		switch v := l.st.(type) {
+		case *ast.BranchStmt:
+			switch v.Tok {
+			case token.BREAK:
+				if t1bBreakTarget(mn.Body, v) != ast.Stmt(loop) {
+					continue
+				}
+				isBreak = true
+			case token.CONTINUE:
+				if v.Label == nil {
+					continue
+				}
+				if t := t1bBreakTarget(mn.Body, v); t == ast.Stmt(loop) || (t != nil && t.Pos() >= loop.Body.Pos() && t.End() <= loop.Body.End()) {
+					continue
+				}
+			default:
+				return fail("control-flow")
+			}
+		case *ast.ReturnStmt:
+			if l.owner != 0 {
+				continue
+			}
+		default:
+			continue
+		}
+		if len(l.pc) < len(loopLeaf.pc) || !sdSamePc(l.pc[:len(loopLeaf.pc)], loopLeaf.pc) {
+			return fail("exit-path")
+		}
+		e := exit{kind: "other", rel: l.pc[len(loopLeaf.pc):]}
+		// the case of the loop's select the exit sits in
+		for k, a := range e.rel {
+			if a.comm == nil {
+				continue
+			}
+			mine := false
+			for _, c := range sel.Body.List {
+				if c == ast.Stmt(a.comm) {
+					mine = true
+				}
+			}
+			if mine {
+				if k != 0 {
+					e.kind = "conditional"
+				} else {
+					e.kind = commKind(a.comm, a.env)
+					if as, ok := a.comm.Comm.(*ast.AssignStmt); ok && len(as.Lhs) >= 1 {
+						e.sigVar = rtIdentObj(as.Lhs[0])
+					}
+					e.rel = e.rel[1:]
+				}
+			}
+			break
+		}
+		// cancelled before, in the same turn of the loop, on every path to this exit
+		for j := loopIdx + 1; j < i; j++ {
+			m := w.leaves[j]
+			if inLoop(m) && isCancel(m) && sdPrefixPc(m.pc, l.pc) && len(m.loops) <= len(l.loops) && sameLoops(m.loops, l.loops[:len(m.loops)]) {
+				e.cancelled = true
+			}
+		}
+		if isBreak && afterCancel {
+			e.cancelled = true
+		}
+		exits = append(exits, e)
+	}
+	res := map[string]bool{}
+	add := func(name string, cancelled bool) {
+		if old, ok := res[name]; ok {
+			cancelled = cancelled && old
+		}
+		res[name] = cancelled
+	}
+	for _, e := range exits {
+		switch e.kind {
+		case "notify":
+			if len(e.rel) != 0 {
+				add("notify:conditional", false)
+			} else {
+				add("notify", e.cancelled)
+			}
+		case "signal":
+			for _, s := range registered {
+				sat := t1bTrue
+				for _, a := range e.rel {
+					if a.cond == nil {
+						sat = t1bUnknown
+						continue
+					}
+					v := t1bEvalEq(a.cond, e.sigVar, s)
+					if !a.pos {
+						v = v.not()
+					}
+					if v == t1bFalse {
+						sat = t1bFalse
+						break
+					}
+					if v == t1bUnknown {
+						sat = t1bUnknown // a later conjunct may still be false
+					}
+				}
+				switch sat {
+				case t1bTrue:
+					add("signal:"+s, e.cancelled)
+				case t1bUnknown:
+					add("signal:?", false)
+				}
+			}
+		default:
+			add("other:"+e.kind, false)
+		}
+	}
+	names := []string{}
+	for n := range res {
+		names = append(names, n)
+	}
+	sort.Strings(names)
+	out := []asmWay{}
+	for _, n := range names {
+		out = append(out, asmWay{n, res[n]})
+	}
+	return out
+}
+
 func extractAssembly() {
 	g := gen("Assembly")
 	none := "none"
@@ -376,9 +780,11 @@ func extractAssembly() {
 		return "some " + leanStr(s)
 	}
 
-	// ------------------------------------------------------------------ pkg/server/lifecycle.go
-	lf := parse("pkg/server/lifecycle.go")
-	fa := fn(lf, "", "FullAssembly")
+	// ------------------------------------------------------------------ pkg/server (lifecycle.go)
+	// Functions are found in the package by their exported names (whatever file they are in); unexported helpers by role.
+	srv := rtLoadPkg("pkg/server")
+	srvW := t1bNewWalker(srv)
+	fa := t1bFunc(srv, "FullAssembly")
 	sc := newAsmScope(fa)
 	calls := asmCalls(fa, sc)
 	constructors := map[string]bool{"extension.NewHost": true, "luahost.New": true, "storage.FromConfig": true, "msghub.New": true, "storage.NewRetentionScanner": true,
@@ -388,10 +794,23 @@ func extractAssembly() {
 		"FullAssembly: every call of a component constructor / route set-up (sorted by callee, source order among equals), with the ORIGIN of each argument")
 	g.def("managerLit", "List (String × String)", leanPairs(asmLit(fa, sc, "message.StoreManager")), "FullAssembly: the fields of the message.StoreManager literal, by origin")
 	g.def("addressingLit", "List (String × String)", leanPairs(asmLit(fa, sc, "policy.Addressing")), "FullAssembly: the fields of the policy.Addressing literal, by origin")
-	g.def("servicesLit", "List (String × String)", leanPairs(asmLit(fa, sc, "Services")), "FullAssembly: the fields of the Services literal, by origin")
+	// an unexported field of Services is named by its declared type (`~*sync.WaitGroup`), not by its spelling
+	svcLit := asmLit(fa, sc, "Services")
+	svcType := asmStructFieldTypes(srv, "Services")
+	for i, kv := range svcLit {
+		if !strings.HasPrefix(kv[0], "!") && !rtExported(kv[0]) {
+			t, ok := svcType[kv[0]]
+			if !ok {
+				t = "?"
+			}
+			svcLit[i][0] = "~" + t
+		}
+	}
+	sort.SliceStable(svcLit, func(i, j int) bool { return svcLit[i][0] < svcLit[j][0] })
+	g.def("servicesLit", "List (String × String)", leanPairs(svcLit), "FullAssembly: the fields of the Services literal, by origin; an unexported field appears as `~<its declared type>`")
 	g.def("assemblyParamWrites", "List String", strList(asmParamWrites(fa, sc)), "FullAssembly: writes through its parameter (the configuration is only read)")
-	// Start: go s.<Field>.Start(ctx[, s.makeReadyFunc()])
-	st := fn(lf, "Services", "Start")
+	// Start: go s.<Field>.Start(ctx[, s.<ready-function helper>()])
+	st := srv.method("Services", "Start")
 	var started []string
 	if st != nil {
 		ssc := newAsmScope(st)
@@ -406,21 +825,53 @@ func extractAssembly() {
 			args := make([]string, len(gs.Call.Args))
 			for i, a := range gs.Call.Args {
 				args[i] = ssc.describe(a)
+				// a call of an unexported same-package helper is described by the ROLE of the helper
+				if ce, ok := rtUnparen(a).(*ast.CallExpr); ok {
+					if fd, recv := srv.helper(ce); fd != nil {
+						hargs := make([]string, len(ce.Args))
+						for j, ha := range ce.Args {
+							hargs[j] = ssc.describe(ha)
+						}
+						r := "~" + asmHelperRole(srv, fd, st)
+						if recv != nil {
+							r = ssc.describe(recv) + "." + r
+						}
+						args[i] = r + "(" + strings.Join(hargs, ",") + ")"
+					}
+				}
 			}
 			started = append(started, ssc.describe(gs.Call.Fun)+"("+strings.Join(args, ",")+")")
 			return true
 		})
 	}
 	sort.Strings(started)
-	g.def("startedServices", "List String", strList(started), "Services.Start: the goroutines it starts (sorted), arguments by origin")
-	sn := fn(lf, "Services", "setupNotify")
+	g.def("startedServices", "List String", strList(started), "Services.Start: the goroutines it starts (sorted), arguments by origin; `~readyFunc` = an unexported method that Add(1)s the *sync.WaitGroup field Start waits on and returns a function literal that calls that field's Done (through a sync.Once)")
+	// the failure channels merged: every receive of a select case in the unexported helpers FullAssembly calls on the
+	// Services value it returns (the helper is found by being called, not by its name)
 	var watched []string
-	if sn != nil {
-		nsc := newAsmScope(sn)
-		ast.Inspect(sn.Body, func(x ast.Node) bool {
+	if fa != nil {
+		returned := ""
+		for _, s := range fa.Body.List {
+			if rs, ok := s.(*ast.ReturnStmt); ok && len(rs.Results) >= 1 {
+				returned = sc.describe(rs.Results[0])
+			}
+		}
+		scopes := map[*ast.FuncDecl]*asmScope{}
+		srvW.deep(fa.Body, nil, func(x ast.Node, env *rtEnv, in *ast.FuncDecl) {
 			cc, ok := x.(*ast.CommClause)
 			if !ok || cc.Comm == nil {
-				return true
+				return
+			}
+			nsc := sc
+			if in != nil {
+				if scopes[in] == nil {
+					scopes[in] = newAsmScope(in)
+				}
+				nsc = scopes[in]
+				// the helper must work on the Services value FullAssembly returns
+				if ro := axRecvObj(in); ro == nil || returned == "" || sc.describe(srvW.rebase(&ast.Ident{Name: ro.Name, Obj: ro}, env)) != returned {
+					watched = append(watched, "!helper-not-on-the-returned-services")
+				}
 			}
 			ast.Inspect(cc.Comm, func(y ast.Node) bool {
 				if ue, ok := y.(*ast.UnaryExpr); ok && ue.Op == token.ARROW {
@@ -428,11 +879,10 @@ func extractAssembly() {
 				}
 				return true
 			})
-			return true
 		})
 	}
 	sort.Strings(watched)
-	g.def("watchedServices", "List String", strList(watched), "Services.setupNotify: the failure channels merged into Notify() (sorted)")
+	g.def("watchedServices", "List String", strList(watched), "the failure channels merged into Notify(): the receives of the select cases in the unexported helper(s) FullAssembly calls on the Services value it returns (sorted; $recv = that value)")
 
 	// ------------------------------------------------------------------ pkg/storage/storage.go
 	sf := parse("pkg/storage/storage.go")
@@ -476,34 +926,38 @@ func extractAssembly() {
 	g.def("fileNewWrites", "List String", strList(asmParamWrites(ff, ffsc)), "file.New: writes to its parameters")
 
 	// ------------------------------------------------------------------ pkg/storage/retention.go
-	rf := parse("pkg/storage/retention.go")
-	ds := fn(rf, "RetentionScanner", "DoScan")
-	nr := fn(rf, "", "NewRetentionScanner")
+	// DoScan is followed through its visitor callback and through unexported helpers (parameters bound at the call site):
+	// "the field DoScan sleeps for" is the field whatever function of that closure hands to time.After.
+	stp := rtLoadPkg("pkg/storage")
+	ds := stp.method("RetentionScanner", "DoScan")
+	nr := t1bFunc(stp, "NewRetentionScanner")
 	nrsc := newAsmScope(nr)
 	lit := map[string]string{}
 	for _, kv := range asmLit(nr, nrsc, "RetentionScanner") {
 		lit[kv[0]] = kv[1]
 	}
 	var periodF, sleepF, storeF []string
-	if ds != nil && ds.Recv != nil && len(ds.Recv.List[0].Names) == 1 {
-		recv := ds.Recv.List[0].Names[0].Name
-		ast.Inspect(ds.Body, func(x ast.Node) bool {
+	if recv := axRecvObj(ds); ds != nil && recv != nil {
+		t1bNewWalker(stp).deep(ds.Body, nil, func(x ast.Node, env *rtEnv, _ *ast.FuncDecl) {
 			ce, ok := x.(*ast.CallExpr)
 			if !ok {
-				return true
+				return
 			}
-			f := oneLine(src(ce.Fun))
 			switch {
-			case f == "time.Now().Add" && len(ce.Args) == 1:
-				periodF = append(periodF, asmRecvFields(ce.Args[0], recv)...)
-			case f == "time.After" && len(ce.Args) == 1:
-				sleepF = append(sleepF, asmRecvFields(ce.Args[0], recv)...)
-			case strings.HasSuffix(f, ".VisitMailboxes") || strings.HasSuffix(f, ".RemoveMessage"):
-				if se, ok := ce.Fun.(*ast.SelectorExpr); ok {
-					storeF = append(storeF, asmRecvFields(se.X, recv)...)
+			case rtCallName(ce) == "Add" && len(ce.Args) == 1:
+				// time.Now().Add(e), the time.Now() possibly held in a once-assigned local
+				if se, ok := rtUnparen(ce.Fun).(*ast.SelectorExpr); ok {
+					if args, _, isNow := stp.pkgCall(se.X, env, "time", "Now"); isNow && len(args) == 0 {
+						periodF = append(periodF, t1bRecvFields(stp, ce.Args[0], env, recv, 0)...)
+					}
+				}
+			case rtIsPkgSel(ce.Fun, "time", "After") && len(ce.Args) == 1:
+				sleepF = append(sleepF, t1bRecvFields(stp, ce.Args[0], env, recv, 0)...)
+			case rtCallName(ce) == "VisitMailboxes" || rtCallName(ce) == "RemoveMessage":
+				if se, ok := rtUnparen(ce.Fun).(*ast.SelectorExpr); ok {
+					storeF = append(storeF, t1bRecvFields(stp, se.X, env, recv, 0)...)
 				}
 			}
-			return true
 		})
 	}
 	origin := func(fields []string) string {
@@ -526,13 +980,25 @@ func extractAssembly() {
 	g.def("scannerSleepOrigin", "List String", origin(sleepF), "the field DoScan sleeps for between mailboxes is initialised from …")
 	g.def("scannerStoreOrigin", "List String", origin(storeF), "the field DoScan visits / removes through is initialised from …")
 
-	// ------------------------------------------------------------------ pkg/config/config.go
-	cf := parse("pkg/config/config.go")
-	pr := fn(cf, "", "Process")
+	// ------------------------------------------------------------------ pkg/config
+	// Process is followed through unexported helpers of the package; what a helper does to its parameter is described in
+	// Process's own terms (the parameter replaced by the call-site argument).
+	cfp := rtLoadPkg("pkg/config")
+	pr := t1bFunc(cfp, "Process")
+	var cf *ast.File
 	consts := map[string]string{}
 	structs := map[string]*ast.StructType{}
-	if cf != nil {
-		for _, d := range cf.Decls {
+	cfNames := []string{}
+	for n := range cfp.files {
+		cfNames = append(cfNames, n)
+	}
+	sort.Strings(cfNames)
+	for _, n := range cfNames {
+		f := cfp.files[n]
+		if fn(f, "mbNaming", "Decode") != nil {
+			cf = f
+		}
+		for _, d := range f.Decls {
 			gd, ok := d.(*ast.GenDecl)
 			if !ok {
 				continue
@@ -562,7 +1028,9 @@ func extractAssembly() {
 	var lowered []string
 	logLevel := false
 	if pr != nil {
-		ast.Inspect(pr.Body, func(x ast.Node) bool {
+		cw := t1bNewWalker(cfp)
+		cw.deep(pr.Body, nil, func(x ast.Node, env *rtEnv, _ *ast.FuncDecl) {
+			desc := func(e ast.Expr) string { return psc.describe(cw.rebase(e, env)) }
 			switch v := x.(type) {
 			case *ast.CallExpr:
 				switch oneLine(src(v.Fun)) {
@@ -573,22 +1041,21 @@ func extractAssembly() {
 						} else if bl, ok := v.Args[0].(*ast.BasicLit); ok {
 							envPrefix, _ = strconv.Unquote(bl.Value)
 						}
-						envTarget = psc.describe(v.Args[1])
+						envTarget = desc(v.Args[1])
 					}
 				case "stringutil.SliceToLower":
 					if len(v.Args) == 1 {
-						lowered = append(lowered, psc.describe(v.Args[0]))
+						lowered = append(lowered, desc(v.Args[0]))
 					}
 				}
 			case *ast.AssignStmt:
 				if len(v.Lhs) == 1 && len(v.Rhs) == 1 {
-					l, r := psc.describe(v.Lhs[0]), psc.describe(v.Rhs[0])
+					l, r := desc(v.Lhs[0]), desc(v.Rhs[0])
 					if strings.HasSuffix(l, ".LogLevel") && r == "strings.ToLower("+l+")" {
 						logLevel = true
 					}
 				}
 			}
-			return true
 		})
 	}
 	// the lists are described relative to the Root value handed to envconfig.Process
@@ -775,8 +1242,7 @@ func extractAssembly() {
 		}
 	}
 	g.def("mainSequence", "List String", strList(seq), "cmd/inbucket main(): the configuration / assembly / start / cancel / drain calls in source order (repetitions collapsed)")
-	// the signal / service-failure loop: every way out of it cancels the services' context first
-	nBreaks, nBare := 0, 0
+	// the signal / service-failure loop: every way out of it cancels the services' context before the drain calls
 	var sigs []string
 	notifyBranch := false
 	if mn != nil {
@@ -793,34 +1259,21 @@ func extractAssembly() {
 					notifyBranch = true
 				}
 			}
-			var body []ast.Stmt
-			switch v := x.(type) {
-			case *ast.CaseClause:
-				body = v.Body
-			case *ast.CommClause:
-				body = v.Body
-			default:
-				return true
-			}
-			cancelled := false
-			for _, st := range body {
-				if es, ok := st.(*ast.ExprStmt); ok {
-					if ce, ok := es.X.(*ast.CallExpr); ok && strings.HasPrefix(mnsc.describe(ce.Fun), "@context.WithCancel#1.1") {
-						cancelled = true
-					}
-				}
-				if bs, ok := st.(*ast.BranchStmt); ok && bs.Tok == token.BREAK && bs.Label != nil {
-					nBreaks++
-					if !cancelled {
-						nBare++
-					}
-				}
-			}
 			return true
 		})
 	}
 	sort.Strings(sigs)
-	g.def("mainLoopExits", "Nat × Nat", fmt.Sprintf("(%d, %d)", nBreaks, nBare), "cmd/inbucket main(): (labelled breaks out of the signal loop, those NOT preceded in their branch by the cancel function of the services' context)")
+	ways := asmMainLoopWays()
+	nBare := 0
+	wp := []string{}
+	for _, w := range ways {
+		if !w.cancelled {
+			nBare++
+		}
+		wp = append(wp, "("+leanStr(w.name)+", "+fmt.Sprint(w.cancelled)+")")
+	}
+	g.def("mainLoopWays", "List (String × Bool)", "["+strings.Join(wp, ", ")+"]", "cmd/inbucket main(): every way out of the loop around the select that receives from the signal.Notify channel / from services.Notify(), with `true` when on EVERY path leaving the loop that way the cancel function of the services' context (2nd result of context.WithCancel) is called — inside the loop before the break, or unconditionally right after the loop before the first Drain / Join call.  signal:<S> = the signal case when the received value is <S> (conditions on it evaluated: switch, if/else, guard-clause and De Morgan forms alike; S ranges over the signals handed to signal.Notify); notify = the services.Notify() case; anything not understood gives an entry no tie accepts")
+	g.def("mainLoopExits", "Nat × Nat", fmt.Sprintf("(%d, %d)", len(ways), nBare), "cmd/inbucket main(): (ways out of the signal loop as listed in mainLoopWays, those on which the services' context is NOT cancelled)")
 	g.def("mainSignals", "List String", strList(sigs), "cmd/inbucket main(): the signals handed to signal.Notify (sorted)")
 	g.def("mainWatchesServiceFailure", "Bool", fmt.Sprint(notifyBranch), "cmd/inbucket main(): the loop has a branch receiving from services.Notify()")
 	te := fn(mfile, "", "timedExit")
